@@ -91,3 +91,20 @@ Proof.
   intros w bytes. unfold create_f, guard, create, mmapfail_panics. cbn [r_mapped].
   destruct (negb (Z.of_nat (length bytes) =? 0)); cbn; split; intros H; auto; discriminate.
 Qed.
+
+(* ---- Clone::clone_from ---- *)
+(* the destination becomes a handle on the source's object: it reads what the source reads; NO other handle - in particular no
+   earlier clone of the destination and no copy of it that another process received - reads anything else than before, because no
+   object is written; descriptors and mappings: one pair made, the destination's old pair released *)
+Theorem clone_from_reads : forall w d s, let '(w', r, _) := clone_from w d s in
+  read w' r = read w s /\ (forall x, read w' x = read w x) /\ objs w' = objs w.
+Proof. intros w d s. unfold clone_from, clone, drop, read, obj. cbn. repeat split; reflexivity. Qed.
+
+Theorem clone_from_balanced : forall w d s, let '(w', r, _) := clone_from w d s in
+  fds w' = fds w /\ maps w' = maps w + (if r_mapped s then 1 else 0) - (if r_mapped d then 1 else 0) /\
+  r_len r = r_len s /\ r_obj r = r_obj s.
+Proof. intros w d s. unfold clone_from, clone, drop. cbn. repeat split; lia. Qed.
+
+Theorem clone_from_calls : forall w d s, let '(_, _, cs) := clone_from w d s in
+  cs = CDup :: (if r_mapped s then [CMmap (r_len s)] else []) ++ (if r_mapped d then [CMunmap] else []) ++ [CClose].
+Proof. intros w d s. unfold clone_from, clone, drop. cbn. destruct (r_mapped s); reflexivity. Qed.
